@@ -549,6 +549,40 @@ func genMalformed(r *gen.Rng) *caseT {
 	return c
 }
 
+// fixedCases: boundary runs that are always made first (kind 4: no consistency promise)
+func fixedCases() []*caseT {
+	mk := func(id uint32, first, last uint16, more bool, pl []byte) opT {
+		s := "[]"
+		if len(pl) > 0 {
+			s = "[" + rawSeg(pl) + "]"
+		}
+		return opT{id: id, first: first, last: last, more: more, pl: pl, plSeg: s}
+	}
+	base := func(ops ...opT) *caseT {
+		return &caseT{kind: 4, high: fragmentation.HighFragThreshold, low: fragmentation.LowFragThreshold,
+			timeout: 1000000, real: fragmentation.DefaultReassembleTimeout, ops: ops}
+	}
+	cs := []*caseT{
+		// the input on which the unrepaired code panicked ("packet has a hole"), then the id again
+		base(mk(1, 8, 7, true, nil), mk(1, 0, 65535, true, nil), mk(1, 0, 3, false, []byte{1, 2, 3, 4})),
+		// a variant through a middle fragment with more=false
+		base(mk(2, 0, 7, true, []byte{1, 2, 3, 4, 5, 6, 7, 8}), mk(2, 16, 23, false, []byte{9, 9, 9, 9, 9, 9, 9, 9}),
+			mk(2, 8, 15, false, nil), mk(2, 8, 15, true, []byte{5})),
+		// first offset != 0 at reassembly: everything "covered" by an empty fragment
+		base(mk(3, 0, 65535, false, nil)),
+		base(mk(3, 8, 65535, false, []byte{7}), mk(3, 0, 7, true, nil)),
+		// whole datagram in one call; one byte; maximal last
+		base(mk(4, 0, 0, false, []byte{42})),
+		base(mk(4, 0, 65535, false, []byte{1, 2, 3})),
+		// tiny limits: every stored fragment is evicted at once
+		{kind: 4, high: 0, low: 0, timeout: 1000000, real: fragmentation.DefaultReassembleTimeout,
+			ops: []opT{mk(5, 0, 7, true, []byte{1, 2, 3, 4, 5, 6, 7, 8}), mk(5, 8, 9, false, []byte{9, 10})}},
+		{kind: 4, high: -1, low: -7, timeout: 1000000, real: fragmentation.DefaultReassembleTimeout,
+			ops: []opT{mk(5, 0, 7, true, nil), mk(6, 0, 7, true, []byte{1}), mk(5, 8, 9, false, []byte{9, 10})}},
+	}
+	return cs
+}
+
 func main() {
 	log.SetOutput(io.Discard)
 	seed := flag.Uint64("seed", 1, "seed")
@@ -556,14 +590,13 @@ func main() {
 	nbig := flag.Int("big", 3, "number of runs with a datagram near the maximum size")
 	exh := flag.Int("exh", 24, "exhaustive cuts and orders for datagram sizes up to this")
 	nhash := flag.Int("hash", 100, "number of Hash3Words cases")
+	spread := flag.Int("spread", 59, "distance between two runs with a large datagram in the output")
 	flag.Parse()
 	r := gen.New(*seed)
 	cases := []*caseT{}
 	add := func(c *caseT) { cases = append(cases, c) }
-	// datagrams near the maximum size first (they are the expensive ones to judge: the first
-	// shard gets them together with the cheap exhaustive runs)
-	for i := 0; i < *nbig; i++ {
-		add(genConsistent(r, 1, true))
+	for _, c := range fixedCases() {
+		add(c)
 	}
 	// boundary sizes, exhaustively
 	for _, sz := range []int{1, 7, 8, 9, 16, 17, 24, 25, 32, 33, 40} {
@@ -582,6 +615,23 @@ func main() {
 		default:
 			add(genMalformed(r))
 		}
+	}
+	// datagrams near the maximum size are the expensive ones to judge: one at the head of every
+	// block of *spread cases, so that they land in different shards of the in-Coq evaluation
+	bigs := []*caseT{}
+	for i := 0; i < *nbig; i++ {
+		bigs = append(bigs, genConsistent(r, 1, true))
+	}
+	if len(bigs) > 0 {
+		out := []*caseT{}
+		for i, c := range cases {
+			if i%*spread == 0 && len(bigs) > 0 {
+				out = append(out, bigs[0])
+				bigs = bigs[1:]
+			}
+			out = append(out, c)
+		}
+		cases = append(out, bigs...)
 	}
 	// execute: kind 2 runs sleep, so they run concurrently (each on its own Fragmentation)
 	var wg sync.WaitGroup
